@@ -193,6 +193,8 @@ impl Account {
 				account
 			}
 		};
+		#[cfg(feature = "breard_r_acmed_verif")]
+		crate::verif::emit("AccountLoaded", crate::verif::account_dump(&account));
 		Ok(account)
 	}
 
@@ -221,6 +223,14 @@ impl Account {
 			let key_hash = hash_key(&self.current_key)?;
 			let contacts_changed = ct_hash != acc_ep.contacts_hash;
 			let key_changed = key_hash != acc_ep.key_hash;
+			#[cfg(feature = "breard_r_acmed_verif")]
+			crate::verif::emit(
+				"SyncDecision",
+				serde_json::json!({
+					"account": self.name, "ep": endpoint.name,
+					"contacts_changed": contacts_changed, "key_changed": key_changed,
+				}),
+			);
 			if contacts_changed {
 				update_account_contacts(endpoint, self).await?;
 			}
@@ -238,6 +248,8 @@ impl Account {
 	}
 
 	pub async fn save(&self) -> Result<(), Error> {
+		#[cfg(feature = "breard_r_acmed_verif")]
+		crate::verif::emit("AccountSave", crate::verif::account_dump(self));
 		storage::save(&self.file_manager, self).await
 	}
 
